@@ -510,7 +510,7 @@ static void cpu_limit(void)
 	struct itimerval it;
 	const char *e = getenv("C15_CPU_LIMIT");
 	memset(&it, 0, sizeof(it));
-	it.it_value.tv_sec = e ? atoi(e) : 6;
+	it.it_value.tv_sec = e ? atoi(e) : 4;
 	signal(SIGPROF, SIG_DFL);
 	setitimer(ITIMER_PROF, &it, NULL);
 }
